@@ -20,7 +20,7 @@ Proof.
   - exists None, [], its. split; [reflexivity|]. split; [constructor|auto].
   - cbn [app] in H.
     inversion H as [ | org0 l its0 t k0 es0 Hl Hr | org0 c k0 its0 es0 Hc Hr | e kw cmt k0 its0 es0 Hkw Hnn Hr
-                     | org0 n e labs kw cmt k0 its0 es0 Hl Hkw Hnn Hr]; subst.
+                     | org0 n e labs kw cmt k0 its0 es0 Hl Hkw Hnn Hr | org0 c e k0 its0 es0 Hac Hr]; subst.
     + destruct (IH _ _ _ Hr) as [org1 [its1 [its2 [E [R Ho]]]]]. exists org1, (IInstr l :: its1), its2.
       split; [cbn [app]; rewrite E; reflexivity|]. split; [constructor; assumption|exact Ho].
     + destruct (IH _ _ _ Hr) as [org1 [its1 [its2 [E [R Ho]]]]]. exists org1, its1, its2.
@@ -29,6 +29,8 @@ Proof.
       split; [exact E|]. split; [constructor; assumption|intros X; discriminate X].
     + destruct (IH _ _ _ Hr) as [org1 [its1 [its2 [E [R Ho]]]]]. exists org1, (IEqu n e :: its1), its2.
       split; [cbn [app]; rewrite E; reflexivity|]. split; [constructor; assumption|exact Ho].
+    + destruct (IH _ _ _ Hr) as [org1 [its1 [its2 [E [R Ho]]]]]. exists org1, (IAssert e :: its1), its2.
+      split; [cbn [app]; rewrite E; reflexivity|]. split; [apply R2assert; assumption|exact Ho].
 Qed.
 
 Lemma equs_app (a b : list Prog.item) : equs (a ++ b) = equs a ++ equs b.
